@@ -1220,6 +1220,209 @@ def greek_oracle(ctx, n, greekify=None):
     return len(kept)
 
 
+# ------------------------------------------------------------------ oracle-only: solve_ode_system vs closed forms (tags 80, 81)
+def observe_ode(model, prng):
+    """One-compartment bolus / first-order absorption models only; returns a term or None (not eligible)."""
+    from pharmpy.model import Bolus, output
+    from pharmpy.modeling import solve_ode_system
+    cs = model.statements.ode_system
+    if cs is None or not set(cs.compartment_names) <= {'CENTRAL', 'DEPOT'} or 'CENTRAL' not in cs.compartment_names:
+        return None
+    cen = cs.find_compartment('CENTRAL')
+    dep = cs.find_compartment('DEPOT') if 'DEPOT' in cs.compartment_names else None
+    dosing = dep if dep is not None else cen
+    for c in (cen, dep):
+        if c is not None and (c.lag_time != 0 or c.bioavailability != 1 or c.input != 0):
+            return None
+    if len(dosing.doses) != 1 or not isinstance(dosing.doses[0], Bolus) or (dep is not None and cen.doses):
+        return None
+    ke = cs.get_flow(cen, output)
+    ka = cs.get_flow(dep, cen) if dep is not None else None
+    if dep is not None and (cs.get_flow(cen, dep) != 0 or cs.get_flow(dep, output) != 0):
+        return None
+    solved = solve_ode_system(model)
+    if solved.statements.ode_system is not None:
+        return None
+    names = ct.Names()
+    after = stms_term(solved.statements, names)
+    t = str(cs.t)
+    rvn = set(model.random_variables.names)
+    term_ke, term_ka = cexpr(ke, names), (ct.opt(cexpr(ka, names)) if ka is not None else 'None')
+    dose, tt = names.p(str(opaque(dosing.doses[0].amount))), names.p(t)
+    ac = names.p('A_CENTRAL(t)')
+    ad = ct.opt(names.p('A_DEPOT(t)')) if dep is not None else 'None'
+    allnames = [names.name(i) for i in range(1, names.next)]
+    pts = []
+    for _ in range(16):
+        pt = {n: (prng.choice([F(0), F(1), F(-1)]) if n in rvn else prng.choice([F(1), F(2), F(1, 2), F(4)]))
+              for n in allnames if '(' not in n}
+        pt[t] = prng.choice([F(4), F(8), F(2)])
+        pts.append(pt)
+    return (f"(mkO {after}\n  {term_ke} {term_ka} {dose} {tt} {ac} {ad}\n  "
+            + ct.lst([sc.env(pt, names) for pt in pts]) + ")")
+
+
+def ode_oracle(ctx, n):
+    import pharmpy.modeling as pm
+    prng = random.Random(f'{ctx.seed}-ode-pts')
+    cdir = corpus_dir(ctx)
+    starts, steps = corpus_starts(cdir), corpus_steps()
+    keep = ['set_first_order_absorption', 'set_proportional_error_model', 'set_additive_error_model',
+            'set_combined_error_model', 'add_covariate_effect_CL_WGT_pow', 'add_covariate_effect_CL_WGT_lin',
+            'fix_first_theta', 'create_joint_distribution_2', 'mu_reference_model', 'make_declarative', 'set_iiv_on_ruv']
+    hs = [(s, []) for s in ('pheno', 'basic_iv', 'basic_oral', 'pheno_le5')] + [('pheno', ['set_first_order_absorption'])]
+    for _ in range(n):
+        hs.append((ctx.rng.choice(['pheno', 'basic_iv', 'basic_oral', 'pheno_ge7']),
+                   [ctx.rng.choice(keep) for _ in range(ctx.rng.choice([1, 2]))]))
+    terms, kept = [], []
+    stats = {'models': 0, 'not_eligible': 0, 'raised': {}, 'inconclusive': 0, 'points_compared': 0, 'oral': 0}
+    for s, hist in hs:
+        m = starts[s]()
+        for st in hist:
+            try:
+                m = steps[st](m)
+            except Exception:
+                pass
+        try:
+            term = observe_ode(m, prng)
+        except sc.Unconvertible:
+            continue
+        except Exception as e:
+            stats['raised'][type(e).__name__] = stats['raised'].get(type(e).__name__, 0) + 1
+            continue
+        if term is None:
+            stats['not_eligible'] += 1
+            continue
+        terms.append(term)
+        kept.append({'start': s, 'history': hist})
+        stats['oral'] += 1 if '(Some' in term.split('\n')[1] else 0
+    verdicts = ctx.run_cases('ode', IMPORTS, 'ocase', terms, 'verdict_ode', shard=12)
+    for h, v in zip(kept, verdicts):
+        stats['models'] += 1
+        stats['points_compared'] += sum(t - 2000 for t in v if t >= 2000)
+        stats['inconclusive'] += 1 if 1080 in v else 0
+        for t, what in ((80, 'solve_ode_system: A_CENTRAL(t) differs from the documented closed form'),
+                        (81, 'solve_ode_system: A_DEPOT(t) differs from the documented closed form')):
+            if t in v:
+                ctx.violation(what, {'ode_model': h, 'tags': v})
+    ctx.coverage['closed_form_oracle'] = stats
+    return len(kept)
+
+
+# ------------------------------------------------------------------ component level: convert_model round trip (tags 70-79),
+#                                                                    split / create_joint_distribution (tags 90-97)
+def pmodel_term(m, names):
+    params = ct.lst([ct.tup(names.p(p.name), ct.q(F(str(p.init))), ct.boolean(p.fix)) for p in m.parameters])
+    return ("(mkPM " + stms_term(m.statements, names) + "\n    " + params + "\n    "
+            + ct.lst([rdist_term(d, names) for d in m.random_variables]) + " "
+            + ct.lst([names.p(str(opaque(y))) for y in m.dependent_variables]) + ")")
+
+
+def _obs_pm(thunk, names, refusal=(ValueError, NotImplementedError)):
+    try:
+        r = thunk()
+    except refusal:
+        return 'OValueError', None
+    except sc.Unconvertible:
+        raise
+    except Exception as e:
+        return 'OOther', f'{type(e).__name__}: {e}'[:160]
+    return f'(OOk {pmodel_term(r, names)})', None
+
+
+def _corpus_models(ctx, n, steps_allowed=None):
+    cdir = corpus_dir(ctx)
+    starts, steps = corpus_starts(cdir), corpus_steps()
+    hs = [(s, []) for s in ('pheno', 'moxo', 'basic_iv', 'basic_oral', 'pheno_le5')]
+    names = sorted(steps_allowed or steps)
+    for _ in range(n):
+        hs.append((ctx.rng.choice(['pheno', 'moxo', 'basic_iv', 'basic_oral', 'pheno_ne4']),
+                   [ctx.rng.choice(names) for _ in range(ctx.rng.choice([1, 2]))]))
+    for s, hist in hs:
+        m = starts[s]()
+        applied = []
+        for st in hist:
+            try:
+                m = steps[st](m)
+                applied.append(st)
+            except Exception:
+                pass
+        yield {'start': s, 'history': applied}, m
+
+
+def _points(names, rvn, prng, k=8):
+    allnames = [names.name(i) for i in range(1, names.next)]
+    return ct.lst([sc.env({n: (prng.choice(SMALL) if n in rvn else prng.choice(POW2)) for n in allnames
+                           if n != '__UNDEF'}, names) for _ in range(k)])
+
+
+def component_oracle(ctx, n):
+    import pharmpy.modeling as pm
+    prng = random.Random(f'{ctx.seed}-comp-pts')
+    cterms, ckept, jterms, jkept = [], [], [], []
+    stats = {'convert_models': 0, 'convert_back': 0, 'joint_models': 0, 'split_done': 0, 'create_done': 0,
+             'create_refused': 0, 'errors': {}}
+    for h, m in _corpus_models(ctx, n):
+        try:
+            names = ct.Names()
+            before = pmodel_term(m, names)
+            gen, err = _obs_pm(lambda: pm.convert_model(m, 'generic'), names)
+            if m.dataset is not None:
+                back, err2 = _obs_pm(lambda: pm.convert_model(pm.convert_model(m, 'generic'), 'nonmem'), names)
+            else:
+                back, err2 = 'OOther', None          # a NONMEM model may need the dataset: not attempted
+            for e in (err, err2):
+                if e:
+                    stats['errors'][e[:60]] = stats['errors'].get(e[:60], 0) + 1
+            cterms.append(f"(mkC {before}\n  {gen}\n  {back}\n  {_points(names, set(m.random_variables.names), prng)})")
+            ckept.append(h)
+            stats['convert_back'] += 1 if back.startswith('(OOk') else 0
+            # split / create joint distribution on the IIV etas
+            names = ct.Names()
+            before = pmodel_term(m, names)
+            iiv = list(m.random_variables.iiv.names)
+            if len(iiv) >= 2:
+                inds = ctx.rng.sample(iiv, ctx.rng.choice(range(2, len(iiv) + 1)))
+                inds = [x for x in iiv if x in inds]
+                spl, e1 = _obs_pm(lambda: pm.split_joint_distribution(m, inds), names)
+                cre, e2 = _obs_pm(lambda: pm.create_joint_distribution(m, inds), names)
+                for e in (e1, e2):
+                    if e:
+                        stats['errors'][e[:60]] = stats['errors'].get(e[:60], 0) + 1
+                jterms.append(f"(mkJ {before}\n  {ct.lst([names.p(x) for x in inds])}\n  {spl}\n  {cre}\n  "
+                              f"{_points(names, set(m.random_variables.names), prng)})")
+                jkept.append(dict(h, inds=inds))
+                stats['split_done'] += 1 if spl.startswith('(OOk') else 0
+                stats['create_done'] += 1 if cre.startswith('(OOk') else 0
+                stats['create_refused'] += 1 if cre == 'OValueError' else 0
+        except (sc.Unconvertible, RecursionError):
+            ctx.coverage['component_skipped'] = ctx.coverage.get('component_skipped', 0) + 1
+    cv = ctx.run_cases('conv', IMPORTS, 'ccase', cterms, 'verdict_conv', shard=10)
+    jv = ctx.run_cases('joint', IMPORTS, 'jcase', jterms, 'verdict_joint', shard=10)
+    CT = {70: 'convert_model to generic changes the statements', 71: '... the parameters', 72: '... the random variables',
+          73: '... the dependent variables', 74: 'convert_model to generic raises',
+          75: 'convert_model generic -> nonmem changes the statements', 76: '... the parameters',
+          77: '... the random variables', 78: '... the dependent variables', 79: 'convert_model generic -> nonmem refuses'}
+    JT = {90: 'split_joint_distribution: statements differ from model (must be untouched)',
+          91: 'split_joint_distribution: parameters differ from model', 92: 'split_joint_distribution: random variables differ '
+          'from model (unjoin)', 93: 'split_joint_distribution: dependent variables changed', 94: 'split_joint_distribution raises',
+          95: 'create_joint_distribution changes the statements', 96: 'create_joint_distribution changes dependent variables, rv '
+          'names or loses a parameter', 97: 'create_joint_distribution raises an internal error'}
+    for h, v in zip(ckept, cv):
+        stats['convert_models'] += 1
+        stats['roundtrip_adds_noop_statement'] = stats.get('roundtrip_adds_noop_statement', 0) + (1 if 2075 in v else 0)
+        for t in v:
+            if t in CT:
+                ctx.violation('convert_model round trip: ' + CT[t], {'component_model': h, 'tags': v})
+    for h, v in zip(jkept, jv):
+        stats['joint_models'] += 1
+        for t in v:
+            if t in JT:
+                ctx.violation(JT[t], {'component_model': h, 'tags': v})
+    ctx.coverage['component_level'] = stats
+    return len(ckept) + len(jkept)
+
+
 def run(ctx):
     # the staging file known_findings.d/C07.json replaces entries of known_findings.json by id (as the maintainer's
     # merge does)
@@ -1247,7 +1450,7 @@ def run(ctx):
     finding_probes(ctx)
     reg = [p for p in sorted((VERIF / 'regress' / 'C07').glob('*.json')) if not p.name.startswith('mu-')]
     specs = [json.loads(p.read_text()) for p in reg]
-    n = 240 if ctx.tier == 'quick' else 5000
+    n = 240 if ctx.tier == 'quick' else 4000
     specs += [gen_spec(ctx.rng) for _ in range(n)]
     kept, verdicts, infos, stats = run_specs(ctx, specs, 'gen')
     ctx.coverage['evaluations'] = sum(i['nqueries'] for i in infos)
@@ -1280,11 +1483,13 @@ def run(ctx):
         'reassigning_programs': sum(1 for s in kept if len({l for l, _ in s['stmts']}) < len(s['stmts'])),
     }
     ctx.coverage['samples'] = [{'spec': s, 'tags': v} for s, v in list(zip(kept, verdicts))[:4]]
-    ncorp = corpus_oracle(ctx, 25 if ctx.tier == 'quick' else 500)
+    ncorp = corpus_oracle(ctx, 25 if ctx.tier == 'quick' else 400)
     ctx.coverage['evaluations'] += ncorp
     ctx.coverage['evaluations'] += gradient_oracle(ctx, 60 if ctx.tier == 'quick' else 600)
-    mspecs, _ = mu_oracle(ctx, 120 if ctx.tier == 'quick' else 1500)
+    mspecs, _ = mu_oracle(ctx, 120 if ctx.tier == 'quick' else 1000)
     ctx.coverage['evaluations'] += greek_oracle(ctx, 20 if ctx.tier == 'quick' else 200)
+    ctx.coverage['evaluations'] += component_oracle(ctx, 12 if ctx.tier == 'quick' else 150)
+    ctx.coverage['evaluations'] += ode_oracle(ctx, 8 if ctx.tier == 'quick' else 80)
     ctx.coverage['evaluations'] += len(mspecs)
 
 
